@@ -2,7 +2,7 @@
 import numpy as np
 from hypothesis import strategies as st
 
-from ..core import Sub, Violation, quiet
+from ..core import Sub, Violation, quiet, package
 from .. import gen
 from ..ref import clt
 
@@ -19,7 +19,7 @@ TOL = 1e-11
 
 def _read(case_stack, plyts, props, offset, uniform_form=False):
     from compmech.composite.laminate import read_stack
-    with quiet():
+    with package('read_stack'):
         if uniform_form:
             return read_stack(list(case_stack), plyt=plyts[0], laminaprop=tuple(props[0]), offset=offset)
         return read_stack(list(case_stack), plyts=list(plyts), laminaprops=[tuple(p) for p in props],
@@ -156,7 +156,7 @@ def check_panel_lam(case, ctx):
         kw['plyts'] = list(L['plyts'])
         kw['laminaprops'] = [tuple(p) for p in L['laminaprops']]
     p = Panel(**kw)
-    with quiet():
+    with package('panel.calc_k0'):
         p.calc_k0(silent=True)
     h = float(sum(L['plyts']))
     A, B, D, E, ABD, ABDE = clt.abd(L['stack'], L['plyts'], L['laminaprops'], L['offset'])
